@@ -10,8 +10,8 @@
 use core::cmp::Ordering;
 
 use fpdec_core::{
-    checked_mul_pow_ten, i128_div_rounded, i128_shifted_div_rounded, ten_pow,
-    MAX_N_FRAC_DIGITS,
+    checked_mul_pow_ten, i128_div_mod_floor, i128_div_rounded,
+    i128_shifted_div_rounded, ten_pow, MAX_N_FRAC_DIGITS,
 };
 
 use crate::{Decimal, DecimalError};
@@ -82,20 +82,31 @@ pub(crate) fn checked_div_rounded(
             }
         }
         Ordering::Greater => {
-            // divisor coeff needs to be shifted, but instead of calculating
+            // divisor coeff needs to be shifted:
             // divident / (divisor * 10 ^ shift)
-            // we can calculate
-            // (divident / divisor) / 10 ^ shift
-            // thus avoiding i128 overflow.
             // divident_n_frac_digits > shift
             shift = divident_n_frac_digits - shift;
             // shift < divident_n_frac_digits => shift < 18 => ten_pow(shift)
             // is safe
-            Some(i128_div_rounded(
-                divident_coeff / divisor_coeff,
-                ten_pow(shift),
-                None,
-            ))
+            if let Some(shifted_divisor) =
+                checked_mul_pow_ten(divisor_coeff, shift)
+            {
+                Some(i128_div_rounded(divident_coeff, shifted_divisor, None))
+            } else {
+                // |divisor| * 10 ^ shift > i128::MAX, so that
+                // |divident / divisor| < 10 ^ shift.
+                // Instead of rounding (divident / divisor) / 10 ^ shift
+                // twice, the fractional part of divident / divisor is
+                // represented by a sticky bit.
+                let (quot, rem) =
+                    i128_div_mod_floor(divident_coeff, divisor_coeff);
+                let sticky = i128::from(rem != 0);
+                Some(i128_div_rounded(
+                    2 * quot + sticky,
+                    2 * ten_pow(shift),
+                    None,
+                ))
+            }
         }
     }
 }
